@@ -23,7 +23,7 @@ RULE = ('one evaluation = one path = one expression shape x one class of atom va
 BOUNDS = {
     'quick': 'all expression trees of depth <= 2 over {atom, \\not t, \\( t \\), t \\and t, t \\or t} (61 shapes) with atoms rotated over '
              '{\\boolean, integer comparison with symbolic digits and relation, \\isodd, \\equal, \\isundefined}; \\AND/\\OR/\\NOT spellings; \\whiledo with bound 0..6',
-    'thorough': 'depth <= 3 trees with <= 5 atoms (a seed-rotated third of the 4752 shapes per run), depth-4 left/right chains, redundant parentheses, \\lengthtest atoms with symbolic digits and units pt/mm/cm, nested \\whiledo',
+    'thorough': 'depth <= 3 trees with <= 5 atoms (a seed-rotated eighth of the 4752 shapes per run), depth-4 left/right chains, redundant parentheses, \\lengthtest atoms with symbolic digits and units pt/mm/cm, nested \\whiledo',
 }
 ASSUMPTIONS = ['\\not binds tightest, \\and/\\or have equal precedence and associate left to right (property text); the linearisation parenthesises '
                'a binary right operand and a binary operand of \\not so that the spelled expression denotes the generated tree',
@@ -291,7 +291,7 @@ def jobs(tier, seed):
         fam('d2', 4, 'upper', stride=3)
     else:
         fam('d2', 4, 'upper')
-        fam('d3', 12, stride=3)
+        fam('d3', 12, stride=8)
         fam('chains4', 8)
         J.append(dict(harness='h_while', params=dict(nested=True), label='whiledo nested'))
     return J
